@@ -81,10 +81,11 @@ def facts_dir(profile='dev', repo=REPO, log=sys.stderr):
     with open(os.path.join(CACHE, 'lock.' + profile), 'w') as lk:
         fcntl.flock(lk, fcntl.LOCK_EX)
         if _complete(out) and not no_cache:
-            try:
-                os.utime(out, None)
-            except OSError:
-                pass
+            for d_ in (out, os.path.dirname(out)):
+                try:
+                    os.utime(d_, None)      # least-recently-USED eviction (see _gc)
+                except OSError:
+                    pass
             return out
         ensure_driver()
         t0 = time.time()
@@ -132,12 +133,19 @@ def facts_dir(profile='dev', repo=REPO, log=sys.stderr):
         return out
 
 
-def _gc(keep=12):
+def _gc(keep=40, min_age_s=3600):
+    """evict the least recently used fact sets beyond `keep`, but never one used in the last hour: several checks (self-test variants,
+    scratch copies) run in parallel and read their facts after the lock is released"""
     root = os.path.join(CACHE, 'facts')
     ds = [os.path.join(root, d) for d in os.listdir(root)]
     ds.sort(key=lambda d: os.path.getmtime(d), reverse=True)
+    now = time.time()
     for d in ds[keep:]:
-        shutil.rmtree(d, ignore_errors=True)
+        try:
+            if now - os.path.getmtime(d) > min_age_s:
+                shutil.rmtree(d, ignore_errors=True)
+        except OSError:
+            pass
 
 
 if __name__ == '__main__':
